@@ -217,7 +217,11 @@ class Parser:
         else:
             raise PestGrammarSyntaxError(f"unexpected token {token.kind}", token=token)
 
-        left = self.parse_postfix_expression(left)
+        while True:
+            postfix = self.parse_postfix_expression(left)
+            if postfix is left:
+                break
+            left = postfix
 
         while True:
             kind = self.current().kind
